@@ -1,6 +1,7 @@
 ------------------------------ MODULE MsgTrace ------------------------------
 (* Acceptor for recordings of real event / MQTT / webhook triggers (C08), reusing MsgCore.    *)
-(* A case: [id, trigs : <<T>>, bursts : << [msgs : <<M>>, runs : <<R>>, emits : <<E>>] >>]    *)
+(* A case: [id, trigs : <<T>>, bursts : << [msgs : <<M>>, runs : <<R>>, emits : <<E>>] >>,   *)
+(*          ends : <<[fid, tag, n]>>]                                                          *)
 (*  M = [kind, key, d, args, ctx]  d = data the filter sees, args = keyword arguments HA      *)
 (*      hands over besides the type header (for events = d), ctx = occurrence context id      *)
 (*  R = [fid, tag, n, kw, tid, inctx]  one observed run start: n = message number it reports, *)
@@ -52,6 +53,18 @@ BurstWhy(c, b) ==
     THEN "event-fire-parameters-differ"
   ELSE ""
 
+\* every run that was started also ended, still holding the parameters of its own message (runs overlap: earlier
+\* ones sleep while later ones start); ends = <<[fid, tag, n]>> collected after everything has finished
+Count(seq, x) == Cardinality({ k \in 1..Len(seq) : seq[k] = x })
+AllRuns(c) == LET RECURSIVE Cat(_)
+                  Cat(k) == IF k > Len(c.bursts) THEN <<>>
+                            ELSE [j \in 1..Len(c.bursts[k].runs) |-> [fid |-> c.bursts[k].runs[j].fid, tag |-> c.bursts[k].runs[j].tag,
+                                                                      n |-> c.bursts[k].runs[j].n]] \o Cat(k + 1)
+              IN Cat(1)
+EndsOk(c) == LET rs == AllRuns(c) IN
+             /\ Len(rs) = Len(c.ends)
+             /\ \A k \in 1..Len(rs) : Count(rs, rs[k]) = Count(c.ends, rs[k])
+
 RECURSIVE Bursts(_, _)
 Bursts(c, k) == IF k > Len(c.bursts) THEN [ok |-> TRUE, at |-> 0, why |-> ""]
                 ELSE LET w == BurstWhy(c, c.bursts[k]) IN
@@ -63,5 +76,7 @@ Next == i <= Len(Cases) /\ i' = i + 1
 Spec == Init /\ [][Next]_i
 Report == i <= Len(Cases) =>
   LET v == Bursts(Cases[i], 1)
-  IN IF v.ok THEN TRUE ELSE PrintT("REJECT " \o ToJson([id |-> Cases[i].id, burst |-> v.at, why |-> v.why]))
+  IN IF ~v.ok THEN PrintT("REJECT " \o ToJson([id |-> Cases[i].id, burst |-> v.at, why |-> v.why]))
+     ELSE IF ~EndsOk(Cases[i]) THEN PrintT("REJECT " \o ToJson([id |-> Cases[i].id, burst |-> 0, why |-> "run-ended-with-other-parameters"]))
+     ELSE TRUE
 =============================================================================
